@@ -1,4 +1,4 @@
-(* Proofs/Limits.v — C17: occupancy never exceeds the configured limit, for every schedule of any number of admitters *)
+(* Proofs/Limits.v — C17: occupancy never exceeds the configured limit, for every schedule of any number of acceptters *)
 From TX Require Import Model.Limits.
 From Coq Require Import Lia ZArith ZifyNat ZifyBool.
 
@@ -54,18 +54,18 @@ Section Server.
   Variables base sbase : nat.    (* connections / streams that exist beforehand and are not touched by the callers *)
 
   Definition SCount (s : ssh * list sloc) : Prop :=
-    conns (fst s) = base + countb (s_is SAdmitted) (snd s) /\
+    conns (fst s) = base + countb (s_is SAccepted) (snd s) /\
     streams (fst s) = sbase + countb s_holds_stream (snd s).
   Definition SCap (s : ssh * list sloc) : Prop := 0 < max -> conns (fst s) <= max.
 
-  (* bookkeeping, both variants: every entry of connMap beyond the pre-existing ones belongs to exactly one admitted,
+  (* bookkeeping, both variants: every entry of connMap beyond the pre-existing ones belongs to exactly one accepted,
      not yet closed caller; every stream to one caller that got that far and was not refused.  A refused caller
      (SRefused) is counted in neither: it has left nothing behind. *)
   Lemma s_count_step v s i : SCount s -> SCount (sys_step _ _ (sstep v max) s i).
   Proof.
     destruct s as [sh ls]. unfold SCount, sys_step. cbn [fst snd]. intros [Hc Hs].
     destruct (nth_error ls i) as [lo|] eqn:E; [|cbn [fst snd]; auto].
-    pose proof (fun lo' => countb_upd_nth (s_is SAdmitted) ls i lo lo' E) as HA.
+    pose proof (fun lo' => countb_upd_nth (s_is SAccepted) ls i lo lo' E) as HA.
     pose proof (fun lo' => countb_upd_nth s_holds_stream ls i lo lo' E) as HS.
     destruct lo as [pc cl]. unfold sstep. cbn [s_pc s_closes].
     destruct pc.
@@ -111,7 +111,7 @@ Section Server.
 End Server.
 
 Lemma s_fresh_count (flags : list bool) :
-  countb (s_is SAdmitted) (map s_new flags) = 0 /\ countb s_holds_stream (map s_new flags) = 0.
+  countb (s_is SAccepted) (map s_new flags) = 0 /\ countb s_holds_stream (map s_new flags) = 0.
 Proof. induction flags as [|f t [IH1 IH2]]; cbn; auto. Qed.
 
 (* any limit, any number of callers (each closing its connection later or not), any schedule *)
@@ -119,7 +119,7 @@ Theorem server_cap_never_exceeds max base sbase (flags : list bool) sched :
   (0 < max -> base <= max) ->
   let s := srun Current max {| conns := base; streams := sbase |} (map s_new flags) sched in
   (0 < max -> conns (fst s) <= max) /\
-  conns (fst s) = base + countb (s_is SAdmitted) (snd s) /\
+  conns (fst s) = base + countb (s_is SAccepted) (snd s) /\
   streams (fst s) = sbase + countb s_holds_stream (snd s).
 Proof.
   intros Hb s. destruct (s_fresh_count flags) as [F1 F2]. split.
@@ -148,10 +148,10 @@ Lemma server_cap_pinned_refuted :
   exists sched, conns (fst (srun Pinned 1 {| conns := 0; streams := 0 |} [s_new false; s_new false] sched)) = 2.
 Proof. exists [0; 1; 0; 0; 0; 1; 1; 1]. vm_compute. reflexivity. Qed.
 
-(* ... and the same schedule on the repaired code admits one and refuses the other, leaving one stream *)
+(* ... and the same schedule on the repaired code accepts one and refuses the other, leaving one stream *)
 Lemma server_cap_current_witness :
   let s := srun Current 1 {| conns := 0; streams := 0 |} [s_new false; s_new false] [0; 1; 0; 0; 0; 1; 1; 1; 1] in
-  fst s = {| conns := 1; streams := 1 |} /\ map s_pc (snd s) = [SAdmitted; SRefused].
+  fst s = {| conns := 1; streams := 1 |} /\ map s_pc (snd s) = [SAccepted; SRefused].
 Proof. vm_compute. auto. Qed.
 
 (* ================================================================ 2. one-step registries *)
@@ -239,7 +239,7 @@ Proof.
 Qed.
 
 (* below the limit a valid registration is never refused, and afterwards the id is registered *)
-Lemma treg_admits_below max id t m : id <> 0%N -> at_cap max (length m) = false ->
+Lemma treg_accepts_below max id t m : id <> 0%N -> at_cap max (length m) = false ->
   fst (treg_apply max (RReg id t) m) = ROk /\ In id (keys (snd (treg_apply max (RReg id t) m))).
 Proof.
   intros Hid Hc. unfold treg_apply. apply N.eqb_neq in Hid. rewrite Hid, Hc. cbn. auto.
@@ -540,7 +540,7 @@ Section Holder.
   Variable max : nat.
 
   Definition h_ok (lo : hloc) : Prop := h_holding lo = true -> h_acquired lo = true.
-  (* counter = holders; the holders admitted against a KNOWN limit are within it *)
+  (* counter = holders; the holders accepted against a KNOWN limit are within it *)
   Definition HInv (s : Z * list hloc) : Prop :=
     fst s = Z.of_nat (countb h_holding (snd s)) /\ Forall h_ok (snd s) /\
     (0 < max -> countb h_known_holding (snd s) <= max).
@@ -585,7 +585,7 @@ Qed.
 (* for EVERY sequence of acquire / acquire-during-a-quota-fault / release / release-again events of every connection, any
    number of connections and every schedule: the counter equals the number of connections that hold a slot (a connection
    let through during a quota fault IS counted; nothing is released twice) — so it never goes below zero — and the holders
-   admitted against a known limit stay within it *)
+   accepted against a known limit stay within it *)
 Theorem slot_release_idempotent max (scripts : list (list hev)) sched :
   let s := hrun true true max 0%Z (map h_new scripts) sched in
   fst s = Z.of_nat (countb h_holding (snd s)) /\ (0 <= fst s)%Z /\ (0 < max -> countb h_known_holding (snd s) <= max).
@@ -608,9 +608,9 @@ Lemma slot_release_not_idempotent_refuted :
                 countb h_holding (snd s) = 2 /\ fst (hrun false true 1 0%Z (map h_new [[HAcq; HRel; HRel]; [HAcq]; [HAcq]]) (firstn 3 sched)) = (-1)%Z.
 Proof. exists [0; 0; 0; 1; 2]. vm_compute. auto. Qed.
 
-(* admit-without-count on a quota fault (NOT the code): while the connection is open the counter under-reports, after its
+(* accept-without-count on a quota fault (NOT the code): while the connection is open the counter under-reports, after its
    release it is -1, and then three connections hold a slot against the known limit 2 *)
-Lemma slot_fault_admit_uncounted_refuted :
+Lemma slot_fault_accept_uncounted_refuted :
   exists sched,
     let scripts := map h_new [[HAcqFault; HRel]; [HAcq]; [HAcq]; [HAcq]] in
     fst (hrun true false 2 0%Z scripts (firstn 1 sched)) = 0%Z /\
@@ -620,7 +620,7 @@ Lemma slot_fault_admit_uncounted_refuted :
 Proof. exists [0; 0; 1; 2; 3]. vm_compute. auto. Qed.
 
 (* the code on the same history: the fourth connection is refused *)
-Lemma slot_fault_admit_counted_witness :
+Lemma slot_fault_accept_counted_witness :
   let s := hrun true true 2 0%Z (map h_new [[HAcqFault; HRel]; [HAcq]; [HAcq]; [HAcq]]) [0; 0; 1; 2; 3] in
   fst s = 2%Z /\ countb h_known_holding (snd s) = 2.
 Proof. vm_compute. auto. Qed.
@@ -691,7 +691,7 @@ End Quota.
 Lemma q_fresh n : countb q_is_created (repeat QStart n) = 0 /\ countb q_is_counted (repeat QStart n) = 0.
 Proof. induction n as [|k [I1 I2]]; cbn; auto. Qed.
 
-(* bookkeeping for EVERY schedule: the stored count is the initial one plus the admitted creations; a refused request
+(* bookkeeping for EVERY schedule: the stored count is the initial one plus the accepted creations; a refused request
    (QRefused) contributes nothing *)
 Theorem quota_count_exact max base n sched :
   let s := qrun max base (repeat QStart n) sched in fst s = base + countb q_is_created (snd s).
@@ -755,11 +755,11 @@ Proof.
   induction recs as [|a rs IH]; cbn; [reflexivity|]. rewrite IH. unfold active. destruct a; reflexivity.
 Qed.
 
-(* a request that is not admitted changes nothing — every policy *)
-Lemma admit_not_created_unchanged p max recs i f :
-  fst (admit_once p max recs i f) <> ACreated -> snd (admit_once p max recs i f) = recs.
+(* a request that is not accepted changes nothing — every policy *)
+Lemma accept_not_created_unchanged p max recs i f :
+  fst (accept_once p max recs i f) <> ACreated -> snd (accept_once p max recs i f) = recs.
 Proof.
-  unfold admit_once.
+  unfold accept_once.
   destruct (if i then match p with Open => Some 0 | _ => None end else count_reads p recs f) as [c|]; [|reflexivity].
   destruct (max <=? c); cbn; [reflexivity|congruence].
 Qed.
@@ -768,22 +768,22 @@ Qed.
    nothing, whichever reads fail (the index read, any subset of the by-id reads) *)
 Theorem quota_fail_closed max recs i f :
   max <= active recs ->
-  fst (admit_once Abort max recs i f) <> ACreated /\ snd (admit_once Abort max recs i f) = recs.
+  fst (accept_once Abort max recs i f) <> ACreated /\ snd (accept_once Abort max recs i f) = recs.
 Proof.
   intros Hfull.
-  assert (H : fst (admit_once Abort max recs i f) <> ACreated).
-  { unfold admit_once. destruct i; [cbn; discriminate|].
+  assert (H : fst (accept_once Abort max recs i f) <> ACreated).
+  { unfold accept_once. destruct i; [cbn; discriminate|].
     destruct (count_reads Abort recs f) as [c|] eqn:E; [|cbn; discriminate].
     apply count_reads_abort_exact in E. subst c.
     destruct (max <=? active recs) eqn:El; [cbn; discriminate|]. apply Nat.leb_gt in El. lia. }
-  split; [exact H|]. apply admit_not_created_unchanged, H.
+  split; [exact H|]. apply accept_not_created_unchanged, H.
 Qed.
 
-(* ... and below the quota it never over-admits either: the limit is preserved by one admission under any faults *)
+(* ... and below the quota it never over-accepts either: the limit is preserved by one admission under any faults *)
 Theorem quota_abort_preserves_limit max recs i f :
-  active recs <= max -> active (snd (admit_once Abort max recs i f)) <= max.
+  active recs <= max -> active (snd (accept_once Abort max recs i f)) <= max.
 Proof.
-  intros Hb. unfold admit_once. destruct i; [cbn; exact Hb|].
+  intros Hb. unfold accept_once. destruct i; [cbn; exact Hb|].
   destruct (count_reads Abort recs f) as [c|] eqn:E; [|cbn; exact Hb].
   apply count_reads_abort_exact in E. subst c.
   destruct (max <=? active recs) eqn:El; cbn [snd]; [exact Hb|]. apply Nat.leb_gt in El. unfold active in *. cbn. lia.
@@ -791,22 +791,22 @@ Qed.
 
 (* without a failing read the lenient listings refuse at the full quota as well (guard: no read fault) *)
 Theorem quota_lenient_refuses_without_fault p max recs :
-  max <= active recs -> admit_once p max recs false [] = (ARefused, recs).
+  max <= active recs -> accept_once p max recs false [] = (ARefused, recs).
 Proof.
-  intros Hfull. unfold admit_once. rewrite count_reads_no_fault.
+  intros Hfull. unfold accept_once. rewrite count_reads_no_fault.
   destruct (max <=? active recs) eqn:El; [reflexivity|]. apply Nat.leb_gt in El. lia.
 Qed.
 
-(* the skipping listing: ONE failed by-id read at a full quota admits one more *)
+(* the skipping listing: ONE failed by-id read at a full quota accepts one more *)
 Lemma quota_skip_refuted :
   exists recs f, active recs = 3 /\ countb (fun b => b) f = 1 /\
-                 admit_once SkipRecord 3 recs false f = (ACreated, true :: recs).
+                 accept_once SkipRecord 3 recs false f = (ACreated, true :: recs).
 Proof. exists [true; true; true], [false; true; false]. vm_compute. auto. Qed.
 
 (* the activation's listing as found: a failed index read is an empty listing, a failed by-id read is skipped *)
 Lemma quota_open_refuted :
-  admit_once Open 1 [true] true [] = (ACreated, [true; true]) /\
-  admit_once Open 1 [true] false [true] = (ACreated, [true; true]).
+  accept_once Open 1 [true] true [] = (ACreated, [true; true]) /\
+  accept_once Open 1 [true] false [true] = (ACreated, [true; true]).
 Proof. vm_compute. auto. Qed.
 
 (* ================================================================ 6. the repaired quota admission (per-client marker) *)
